@@ -275,6 +275,10 @@ func (t *Tree) RemoveTips(revert bool, names ...string) error {
 			}
 		}
 	}
+	// The tip name index must follow the new tip set before branch indexes are recomputed
+	if err := t.UpdateTipIndex(); err != nil {
+		return err
+	}
 	t.ReinitInternalIndexes()
 	return nil
 }
